@@ -110,10 +110,12 @@ Definition all_bytes : list N := map N.of_nat (seq 0 256).
                  `giver.give() || !buffered_once`: the connection task has signalled that it
                  wants a request, or nothing was ever queued
                    yes: the request is written on the upstream connection -->  PSent
-                   no : hyper returns "connection was not ready" (operation was canceled); the
-                        handler answers 503 and nothing is written -->  PFailed
-                        (with [wait_ready] -- the repaired code, patches/fix-C14-wait-upstream-ready.diff:
-                         `sender.ready().await` first -- the task waits here instead)
+                   no : [wait_ready = true], THE CODE AS IT IS (since fix commit cdcae0b,
+                        patches/fix-C14-wait-upstream-ready.diff: `self.sender.ready().await`
+                        before send_request): the task waits here until the signal comes;
+                        [wait_ready = false], the code before that fix: hyper returns "connection
+                        was not ready" (operation was canceled), the handler answers 503 and
+                        nothing is written -->  PFailed
      PSent    -- read the next response head from the upstream connection -->  PGot r
                  (r = the request this response answers: the host answers in arrival order, so
                   the n-th head read answers the n-th request written)
@@ -144,7 +146,8 @@ Definition cinit : conn :=
 
 (* [mutex = false] is the same program without the lock -- NOT what the code does; kept to
    show that the FIFO theorem depends on it (RelayProofs.fifo_needs_mutex).
-   [wait_ready = false] is the pinned code, [true] the repaired one. *)
+   [wait_ready = true] is the code as it is, [false] the code before fix commit cdcae0b
+   (finding F12). *)
 Definition cstep (mutex wait_ready : bool) (c : conn) (a : actor) : conn :=
   match a with
   | ConnTask =>
@@ -205,9 +208,9 @@ Definition srun (wait_ready : bool) (s : sys) (sched : list (nat * actor)) : sys
 Definition delivered (c : conn) (t : nat) : option nat :=
   match pcs c t with PGot r | PDone r => Some r | _ => None end.
 
-(* class predicate of the recorded finding F12 (known_findings.d/C14.json): the schedule lets
-   some request reach hyper's SendRequest before the connection task has signalled readiness
-   after the previous exchange (pinned code) *)
+(* class predicate of the repaired finding F12 (known_findings.d/C14.json, status fixed): the
+   schedule lets some request reach hyper's SendRequest before the connection task has
+   signalled readiness after the previous exchange (code before the fix) *)
 Definition KnownClass_C14_send_before_ready (sched : list actor) : bool :=
   raced (crun true false cinit sched).
 
